@@ -331,9 +331,12 @@ class AsyncUDPNetworkClient(AbstractAsyncNetworkClient[_T_SentPacket, _T_Receive
         async with self.__socket_connector_lock:
             if self.__endpoint is None:
                 endpoint_and_proxy = None
-                if (socket_connector := self.__socket_connector) is not None:
-                    endpoint_and_proxy = await socket_connector.get()
-                self.__socket_connector = None
+                try:
+                    if (socket_connector := self.__socket_connector) is not None:
+                        endpoint_and_proxy = await socket_connector.get()
+                finally:
+                    # The connector cannot be used twice, whatever the outcome.
+                    self.__socket_connector = None
                 if endpoint_and_proxy is None:
                     raise self.__closed()
                 transport, self.__socket_proxy = endpoint_and_proxy
